@@ -67,6 +67,11 @@ def histories(rng, tier):
                 h += ['drop w', 'drop k',
                       'single m r=w field=%d%s' % (f, so), 'vals w', 'valid w', 'info w', 'state w',
                       'single m r=k field=%d copy=1%s' % (f, so), 'vals k', 'valid k', 'info k', 'state k']
+                if written and rng.random() < 0.6:
+                    # the copy is independent: a later write to the parent (on a pixel it already holds) must not
+                    # show through it
+                    q = rng.choice(written)
+                    h += ['upd m op=replace pix=%d val=%s' % (q, c.val(rng)), 'vals k', 'valid k', 'state k']
             if written and rng.random() < 0.4:
                 path = rng.choice(['pix', 'getitem_arr', 'getitem_int'])
                 k = 1 if path == 'getitem_int' else min(3, len(written))
